@@ -110,22 +110,94 @@ def jobs(tier):
     return H + J
 
 
+CORPUS = os.path.join(os.path.dirname(os.path.dirname(os.path.dirname(os.path.abspath(__file__)))), "corpus", "C19")
+
+
+def corpus_jobs():
+    """Witnesses kept in corpus/C19/*.json: {"instance": <builder expression>, "trace": [...]}; replayed first, with
+    the model comparison and the monitor."""
+    import glob, json
+    J = []
+    for path in sorted(glob.glob(os.path.join(CORPUS, "*.json"))):
+        w = json.load(open(path))
+        mk = eval("lambda: " + w["make"], {"L": L, "spi_alphabet": spi_alphabet, "i2c_alphabet": i2c_alphabet})
+        trace = [tuple(l) for l in w["trace"]]
+        J.append(Job("B", (lambda mk=mk, trace=trace, path=path: L.Scripted(mk(), trace, os.path.basename(path))),
+                     cycles=len(trace), runs=1))
+    return J
+
+
 def correspond(ctx):
     ctx.rule = ("one (state, letter) transition of the real core compared with the model at pin/port level; non-trivial = "
                 "the core is active in that cycle (counter enabled, frame or transfer in progress, command strobe)")
-    ctx.jobs = jobs(ctx.tier)
+    ctx.jobs = corpus_jobs() + jobs(ctx.tier)
     dis, bad = run_jobs(ctx, ctx.jobs)
     return dis
 
 
 def search(ctx, disagreements, proof_info):
-    return generic_search(ctx, disagreements, getattr(ctx, "jobs", None) or jobs(ctx.tier), FMT)
+    """Short failing inputs first: replay the (short) mode-A disagreement traces with the pin-level monitor and
+    shrink; then the generic search (monitors that fired during co-simulation, random extensions)."""
+    from explore import shrink
+    all_jobs = getattr(ctx, "jobs", None) or (corpus_jobs() + jobs(ctx.tier))
+    cands = sorted([d for d in disagreements if getattr(d, "job", None) is not None and len(d.trace) <= 400],
+                   key=lambda d: len(d.trace))
+    for d in cands[:12]:
+        try:
+            inst = all_jobs[d.job].make()
+        except Exception:
+            continue
+        if not hasattr(inst, "monitor"):
+            continue
+        tr = [tuple(l) for l in d.trace]
+        r = replay_with_monitor(inst, tr)
+        if r is None:
+            # let the core finish what the trace started: extend with idle letters of the instance
+            ext = [inst.idle_letter(tr[-1])] * 80 if hasattr(inst, "idle_letter") else []
+            r = replay_with_monitor(inst, tr + ext) if ext else None
+            tr = tr + ext
+        if r:
+            tr = shrink(inst, tr[:r[0] + 1])
+            r2 = replay_with_monitor(inst, tr)
+            return {"instance": inst.name, "trace": [list(l) for l in tr], "monitor": (r2 or r)[1], "letter_format": FMT}
+    return generic_search(ctx, disagreements, all_jobs, FMT)
+
+
+F_WD0 = "C19-watchdog-reset-delay-0"
 
 
 def probes(ctx):
-    return []
+    out = []
+    # fixed 7ecbeb8: Watchdog(crg_rst=..., reset_delay=0) drove crg_rst high from the reset state, watchdog never
+    # enabled.  Witness: control register all 0 for 6 cycles, then enabled without reset mode until it times out.
+    inst = L.mk_watchdog(4, 0)
+    w = [(0, 0, 0, 0, 0, 0)] * 6 + [(0, 1, 0, 0, 0, 0)] * 4
+    r = replay_with_monitor(inst, w)
+    n = inst.netlist
+    highs = []
+    for t, letter in enumerate(w):
+        for sig, v in zip(inst.inputs, letter):
+            n.set(sig, v)
+        n.settle()
+        if n.getu(inst.outputs[1]):
+            highs.append(t)
+        n.tick()
+    out.append((F_WD0, bool(highs) or r is not None,
+                "Watchdog(reset_delay=0): crg_rst high in cycles %s without a timeout in reset mode%s" % (
+                    highs, "; monitor: cycle %d: %s" % r if r else "") if (highs or r) else "witness passes"))
+    # notes (outside the property's quantifier, DESIGN 7.C19 / 8.3): kept visible in the evidence
+    ctx.cov.notes.append("SPIMaster: length = 0 or length > 2^bits_for(data_width-1) never leaves RUN; clk_divider < 2 never "
+                         "leaves START/STOP; lowering clk_divider at run time below the running counter stalls the clock "
+                         "for up to 65536 cycles (`==` compare) - outside the quantifier (1 <= length <= data_width, "
+                         "constant divider >= 2)")
+    ctx.cov.notes.append("RS232PHYTX with tuning word 0 never leaves RUN (baud rate 0, outside the range); RS232PHYRX does "
+                         "not check the start bit at its sample point; equal-rate loopback needs >= 4 cycles per bit")
+    ctx.cov.notes.append("I2CMasterMachine: a command strobe while not idle is not executed but advances the FSM by one "
+                         "step off the clk2x grid (bit sequence still legal, one SCL phase shortened); SCL and SDA change "
+                         "in the same edge in WRITE0/READ1/WRITEACK1 (SCL falling) - I2CMaster's pad stage holds SDA one cycle")
+    return out
 
 
 def replay(ctx, payload):
     from explore import generic_replay
-    return generic_replay(ctx, payload, jobs("thorough"))
+    return generic_replay(ctx, payload, corpus_jobs() + jobs("thorough") + jobs("quick"))
